@@ -158,6 +158,20 @@ func runCommentCheck(path string) {
 					break
 				}
 			}
+			// comments that trailed a deleted import declaration may end up on the package line: only the
+			// original header comments are required, in order
+			inOrig := map[string]int{}
+			for _, t := range oh {
+				inOrig[t]++
+			}
+			var nhf []string
+			for _, t := range nh {
+				if inOrig[t] > 0 {
+					inOrig[t]--
+					nhf = append(nhf, t)
+				}
+			}
+			nh = nhf
 			if strings.Join(oh, "\x00") != strings.Join(nh, "\x00") {
 				o.Problems = append(o.Problems, fmt.Sprintf("header/package comments changed: %q -> %q", oh, nh))
 			}
